@@ -281,3 +281,34 @@ Definition op_meta_ok (o : op) : bool :=
 Definition wf_history (h : list item) : bool :=
   hash_consistentb (saves h) &&
   forallb (fun i => match item_op i with Some o => op_meta_ok o | None => true end) h.
+
+(* ---- the height record as bytes: pkg/store/store.go encodeHeight / decodeHeight -------------------- *)
+(* encodeHeight: heightBytes := make([]byte, 8); binary.LittleEndian.PutUint64(heightBytes, height) - the LOW byte
+   first.  decodeHeight: a record that is not 8 bytes long is an error, else binary.LittleEndian.Uint64.
+   [VHeight n] in an image stands for the record [enc_height n]; Check/StoreCheck.v compares the raw bytes of the
+   /t record the real store left behind with [enc_height] of the model's height. *)
+Fixpoint le_bytes (k : nat) (n : N) : list N :=
+  match k with
+  | O => []
+  | S k' => (n mod 256)%N :: le_bytes k' (n / 256)%N
+  end.
+Fixpoint le_value (l : list N) : N :=
+  match l with
+  | [] => 0%N
+  | b :: r => (b + 256 * le_value r)%N
+  end.
+Definition height_length : nat := 8.                                   (* heightLength *)
+Definition enc_height (n : N) : list N := le_bytes height_length n.     (* encodeHeight *)
+Definition dec_height (l : list N) : option N :=                        (* decodeHeight *)
+  if Nat.eqb (List.length l) height_length then Some (le_value l) else None.
+
+(* SetHeight compares NUMBERS: `currentHeight, err := s.Height(ctx)` decodes the record, then `if height <=
+   currentHeight { return nil }` ([step], OSetHeight: [n <=? cur]).  The order of the encoded records as byte strings
+   (bytes.Compare: lexicographic, first byte = LOW byte of the height) is a different order - Props/C14.v has the
+   witnesses (255 / 256 in both directions) - so it must not be used in its place. *)
+Fixpoint lex_leb (a b : list N) : bool :=
+  match a, b with
+  | [], _ => true
+  | _ :: _, [] => false
+  | x :: a', y :: b' => if (x <? y)%N then true else if (y <? x)%N then false else lex_leb a' b'
+  end.
